@@ -29,6 +29,11 @@ func lruKeys(r *rng) (int, [][]byte) {
 			pool[i] = r.bytes(1 + r.n(5))
 		}
 	}
+	if alpha >= 2 && r.chance(1, 4) {
+		// two distinct keys with equal hashes
+		p := collidePairs[r.n(len(collidePairs))]
+		pool[0], pool[1] = []byte(p[0]), []byte(p[1])
+	}
 	keys := make([][]byte, n)
 	for i := range keys {
 		keys[i] = pool[r.n(alpha)]
